@@ -95,6 +95,7 @@ class Contract:
         cover_raises=True,
         ghost_final=None,
         segment=None,
+        specfns=None,
     ):
         self.file, self.qualname = file, qualname
         self.props = tuple(props)
@@ -123,6 +124,7 @@ class Contract:
         self.cover_raises = cover_raises
         self.ghost_final = ghost_final
         self.segment = segment
+        self.specfns = specfns or {}
 
     @property
     def key(self):
